@@ -220,6 +220,10 @@ type C03Mut struct {
 	// assigns a fresh map to the pointer-injected map variable; an injected pointer must
 	// keep referring to the host's variable, not to the collection it held when injected.
 	GrowPtr bool `json:"grow_ptr,omitempty"`
+	// LateInject: the name late64, which the first rule assigned while it was an ordinary
+	// local, is injected (pointer to an int64) before the same rule runs again: the same
+	// assignment must now store through the injected pointer.
+	LateInject bool `json:"late_inject,omitempty"`
 	// NewFuncs, if set, are re-injected under the names f0, f1, ... (same arity, wider or
 	// other numeric parameter kinds): the same call sites then convert to other types.
 	NewFuncs []C03Func `json:"new_funcs,omitempty"`
@@ -251,6 +255,14 @@ func (m *C03Mut) apply(inj map[string]interface{}, l *obs.Log, reinject func(nam
 	if m.SetO {
 		o.Scalars = m.NewO
 		o.In.Scalars = m.NewPIn
+	}
+	if m.LateInject {
+		v := new(int64)
+		*v = -1
+		inj["late64"] = v
+		if reinject != nil {
+			reinject("late64", v)
+		}
 	}
 	if m.GrowPtr {
 		ps := inj["psli16"].(*[]int16)
@@ -321,6 +333,7 @@ func genC03World(t *rapid.T) C03World {
 
 // c03Gen generates straight-line programs of reads, writes and calls.
 type c03Gen struct {
+	late bool // the rule assigns the local late64
 	t      *rapid.T
 	w      *C03World
 	n      int
@@ -704,6 +717,10 @@ func (g *c03Gen) stmts() []*dsl.Stmt {
 	// key variables used by element accesses
 	out = append(out, dsl.Assign(dsl.Var("ki8"), "=", dsl.Var("gI8")), dsl.Assign(dsl.Var("ki64"), "=", dsl.Int(int64(uni(t, "ki64", 0, 2)))))
 	n := uni(t, "nstmts", 3, 10)
+	if g.late {
+		// a plain assignment to a name that is an ordinary local now and may be injected later
+		out = append(out, dsl.Assign(dsl.Var("late64"), "=", dsl.Int(int64(uni(t, "late_val", 1, 90)))))
+	}
 	for i := 0; i < n; i++ {
 		switch k := uni(t, g.lbl("stmt"), 0, 9); {
 		case k <= 2: // read
@@ -767,11 +784,12 @@ func (g *c03Gen) stmts() []*dsl.Stmt {
 func init() {
 	register(&Prop{
 		ID:   "C03",
-		Rule: "one straight-line rule of 3-10 statements over a generated host world: a pointer-injected struct with a field of every integer/unsigned/float width, string and bool, a nested struct and a nested pointer struct (two-level paths), maps (string, int8, int64 and uint16 keys; by value and by pointer), slices and arrays of several element kinds (by value, by pointer, as struct fields), plain- and pointer-injected scalars of every kind, 1-3 functions created at run time from a generated parameter-kind list (0-5 parameters mixing all numeric widths, string, bool) and a fixed method catalogue (pointer, value and three-level receivers); statements: reads reported through an observer, stores with = and := of in-range values (literal boundaries of the target width, locals, arithmetic, other fields; cross-class only into struct fields and pointer-injected scalars; compound stores), element access with literal, string and variable keys of another width, calls with literal/variable/field/element/expression arguments, stores through non-addressable injections; oracle = reference interpreter over an independent copy of the world: the observer log (values read, arguments received, results), error-ness and the complete final host world must agree. Between two executions on the same data context the host may change fields and elements, re-inject functions with other parameter kinds, append to the pointer-injected slice (reallocation) and assign a fresh map to the pointer-injected map variable. Non-trivial: the program contains a width-changing or class-crossing store, a two-level path, a variable key of another width, or a call with >= 2 parameters of different classes; distinct by case hash",
+		Rule: "one straight-line rule of 3-10 statements over a generated host world: a pointer-injected struct with a field of every integer/unsigned/float width, string and bool, a nested struct and a nested pointer struct (two-level paths), maps (string, int8, int64 and uint16 keys; by value and by pointer), slices and arrays of several element kinds (by value, by pointer, as struct fields), plain- and pointer-injected scalars of every kind, 1-3 functions created at run time from a generated parameter-kind list (0-5 parameters mixing all numeric widths, string, bool) and a fixed method catalogue (pointer, value and three-level receivers); statements: reads reported through an observer, stores with = and := of in-range values (literal boundaries of the target width, locals, arithmetic, other fields; cross-class only into struct fields and pointer-injected scalars; compound stores), element access with literal, string and variable keys of another width, calls with literal/variable/field/element/expression arguments, stores through non-addressable injections; oracle = reference interpreter over an independent copy of the world: the observer log (values read, arguments received, results), error-ness and the complete final host world must agree. Between two executions on the same data context the host may change fields and elements, re-inject functions with other parameter kinds, append to the pointer-injected slice (reallocation), assign a fresh map to the pointer-injected map variable, and inject (as a pointer) a name that the rule so far assigned as an ordinary local. Non-trivial: the program contains a width-changing or class-crossing store, a two-level path, a variable key of another width, or a call with >= 2 parameters of different classes; distinct by case hash",
 		New:  func() interface{} { return &C03Case{} },
 		Gen: func(t *rapid.T) interface{} {
 			c := &C03Case{World: genC03World(t)}
 			g := &c03Gen{t: t, w: &c.World, locals: map[byte][]string{}, nt: map[string]bool{}}
+			g.late = pct(t, "assigns_late_name", 25)
 			body := &dsl.Block{Stmts: g.stmts(), HasRet: true, Ret: dsl.Int(1)}
 			c.Rule = &dsl.Rule{Name: "c03", HasSal: true, Sal: 1, Body: body}
 			if pct(t, "second_execution", 40) {
@@ -781,6 +799,7 @@ func init() {
 					// the same rule (same compiled call sites) runs again; the functions were
 					// re-injected with other numeric parameter kinds of the same arity
 					c.Rerun = true
+					c.Mut.LateInject = g.late && pct(t, "mut_late_inject", 70)
 					for _, f := range c.World.Funcs {
 						nf := C03Func{Results: f.Results}
 						for j, p := range f.Params {
@@ -823,6 +842,9 @@ func init() {
 			if c.Rerun {
 				rules = append(rules, c.Rule)
 				x.Class("same-rule-re-executed-after-re-injection")
+				if c.Mut.LateInject {
+					x.Class("a-name-assigned-as-a-local-is-injected-before-the-rule-runs-again")
+				}
 			}
 			el, rl := &obs.Log{}, &obs.Log{}
 			einj := c.World.inject(el)
